@@ -29,7 +29,7 @@ def check(P, rep):
     rep.floor('proof-taking entries', len(specs), 3)
     for g, proof in specs:
         pf = ProofFacts(g, proof, ('any',))
-        rep.floor('%s retention guard (exact form)' % g.entry, len(pf.retention), 1)
+        rep.floor('%s retention guard (exact form)' % g.entry, len([x for x in pf.retention if pf.is_retention(x.cond)]), 1)
         effs = state_effects(g)
         for e in effs:
             if g.entry == 'rotate_signers' and e.kind == 'auth':
